@@ -287,6 +287,11 @@ class Scheduler(object):
             me.block_step = self.steps
             me.last_point = (kind, info)
             self._switch(me, kind, info)
+            # when this thread last came back from a wait of this kind (monitors ask "was it woken since it last looked?")
+            wk = getattr(me, "wakes", None)
+            if wk is None:
+                wk = me.wakes = {}
+            wk[kind] = self.steps
             return not me.timed_out
         finally:
             me.in_sched = was
